@@ -601,6 +601,25 @@ func lockFacts(facts map[string]interface{}) {
 		}
 	}
 	or := strs(facts["skeleton.storage.OpenRelation"])
+	// Close closes the log only once it holds the exclusive lock (a running statement appends first),
+	// and stops the flusher before it asks for the lock (the flusher may be waiting for it)
+	facts["lock.closeLogInsideLock"] = lockedBefore(rc, "rs.wal.close") &&
+		indexOf(rc, "call:rs.fs.stopFlusher") >= 0 && indexOf(rc, "call:rs.fs.stopFlusher") < indexOf(rc, "call:rs.fs.lockExclusive") &&
+		indexOf(cl, "call:f.stopFlusher") >= 0 && indexOf(cl, "call:f.stopFlusher") < indexOf(cl, "call:f.lockExclusive")
+	// an OpenRelation that fails after open() (which started the flusher) stops it before it returns
+	orSk := strs(facts["skeleton.storage.OpenRelation"])
+	stops := false
+	if i := indexOf(orSk, "call:newWal"); i >= 0 && i+1 < len(orSk) && orSk[i+1] == "if{" {
+		for _, x := range orSk[i+2:] {
+			if x == "}" || x == "return" {
+				break
+			}
+			if x == "call:fs.stopFlusher" {
+				stops = true
+			}
+		}
+	}
+	facts["lock.failedOpenStopsFlusher"] = stops && indexOf(orSk, "call:fs.open") >= 0 && indexOf(orSk, "call:fs.open") < indexOf(orSk, "call:newWal")
 	facts["lock.flusherOnlyAfterOpen"] = only && fl["OpenRelation"] == "true" && fl["CreateDB"] == "false" &&
 		indexOf(or, "call:newFileStore") >= 0 && indexOf(or, "call:fs.open") > indexOf(or, "call:newFileStore")
 }
@@ -707,6 +726,8 @@ func writeLean(dir string, facts map[string]interface{}) {
 	fmt.Fprintf(&lb, "def lockLogAppendInsideBracket : Bool := %s\n", bl(facts["lock.logAppendInsideBracket"]))
 	fmt.Fprintf(&lb, "def lockFlusherAfterHeaderRead : Bool := %s\n", bl(facts["lock.flusherAfterHeaderRead"]))
 	fmt.Fprintf(&lb, "def lockFlusherOnlyAfterOpen : Bool := %s\n", bl(facts["lock.flusherOnlyAfterOpen"]))
+	fmt.Fprintf(&lb, "def lockCloseLogInsideLock : Bool := %s\n", bl(facts["lock.closeLogInsideLock"]))
+	fmt.Fprintf(&lb, "def lockFailedOpenStopsFlusher : Bool := %s\n", bl(facts["lock.failedOpenStopsFlusher"]))
 	lb.WriteString("\nend Mkdb.Generated\n")
 	writeIfChanged(filepath.Join(dir, "Locks.lean"), lb.Bytes())
 }
